@@ -191,6 +191,8 @@ FIXED_GAS = ['C', 'CC', 'CCC', 'C=C', 'C#C', 'CC(C)C', 'CC(C)(C)C', 'C1CC1', 'C1
              'CC(C)(C)/C=C\\C(C)(C)C', 'Cc1ccccc1C', 'Cc1cccc(C)c1C', 'CC1CC(C)(C)C1', 'C1=CC=CCC1', 'C1CC=CC=C1',
              'CC/C(C)=C\\C(C)(C)C', 'CC/C(C)=C/C(C)(C)C', 'CC(C)(C)/C=C(/C)CC', 'CC(C)(C)/C=C(\\C)CC', 'C/C=C/C', 'C/C=C\\C',
              'CC(C)(C)/C=C/C', 'CC(C)(C)/C=C\\C', 'C/C(=C/C(C)(C)C)C(C)(C)C',
+             # tetrasubstituted double bonds with stereo marks, hydrogen-free molecules, an ether whose carbons have three C neighbours
+             'CC/C(C)=C(/C)CC', 'CC/C(C)=C(\\C)CC', 'C/C(CC)=C(/C)C(C)(C)C', 'O=C=O', 'CC(C)(C)OC(C)(C)C', 'CC(C)OC(C)C', 'CC(C)(C)OC',
              # six-membered rings with a heteroatom, alone and next to an alternating C6 ring (ring-by-ring perception)
              'C1CCOCC1', 'C1CCOCC1c1ccccc1', 'c1ccccc1C1CCOCC1', 'c1ccncc1', 'C1=NC=CC=C1', 'C1N=CC=CC=1', 'Cc1ccccn1',
              'C1=CC=NC=C1', 'c1cc[nH]c1', 'c1ccoc1', 'c1ncccn1', 'C1=CC=CC=C1C1=CC=CN=C1',
@@ -206,7 +208,9 @@ FIXED_SURFACE = ['C[Pt]', 'C([Pt])[Pt]', 'C([Pt])([Pt])[Pt]', 'C([Pt])([Pt])([Pt
                  'O[Pt]', 'O([Pt])[Pt]', 'OC[Pt]', 'CO[Pt]', 'O=C[Pt]', 'C(=O)([Pt])[Pt]', 'OCC([Pt])O[Pt]', 'C([Pt])(CCCCCC)C[Pt]',
                  'CCCCCCC([Pt])C[Pt]', 'OCC(O)C([Pt])O', '[Pt]OC(=O)C', 'C(O)(O)[Pt]', 'C=C([Pt])[Pt]', '[H][Pt]', 'C1CC1[Pt]',
                  'C1C([Pt])C1[Pt]', 'OC(C[Pt])C([Pt])[Pt]', 'CC(=O)[Pt]', 'OC([Pt])([Pt])[Pt]',
-                 'O~[Pt]', 'OC~[Pt]', 'CC(O~[Pt])C[Pt]', 'O=C~[Pt]', 'CO~[Pt]', 'OCC(O~[Pt])[Pt]', 'C(~[Pt])O[Pt]']
+                 'O~[Pt]', 'OC~[Pt]', 'CC(O~[Pt])C[Pt]', 'O=C~[Pt]', 'CO~[Pt]', 'OCC(O~[Pt])[Pt]', 'C(~[Pt])O[Pt]',
+                 # hetero-aromatic and aromatic adsorbates (aromatic flags vs bond types), hydrogen-free adsorbates
+                 '[Pt]c1cocc1[Pt]', '[Pt]c1ccoc1', 'O=C([Pt])[Pt]', '[Pt]c1ccccc1', '[Pt]c1ccccc1[Pt]', 'O=C(O[Pt])c1ccco1', '[Pt]C1=COC=C1[Pt]']
 
 
 def spellings(rng, smi, k):
